@@ -588,6 +588,58 @@ fn stray_tokens_in_include_case(rng: &mut Rng, rec: &mut Recorder, scratch: &std
     let _ = std::fs::remove_dir_all(&root);
 }
 
+/// IF_DATA that is interpreted with the A2ML block of the file: as generated (conforming, some blocks
+/// deviating), or with a recoverable fault inside the IF_DATA (a string written as a bare word).
+/// The first two clauses of the property hold for every input.
+fn interpreted_ifdata_case(rng: &mut Rng, rec: &mut Recorder) {
+    let (text0, _flat, _n) = crate::c18::gen_conforming_document(rng);
+    let mut text = text0.clone();
+    let mut stripped = 0;
+    if rng.chance(2, 3) {
+        // strip the quotes of identifier-like strings inside IF_DATA blocks
+        let mut out = String::with_capacity(text0.len());
+        let mut rest = text0.as_str();
+        while let Some(at) = rest.find("/begin IF_DATA") {
+            let end = rest[at..].find("/end IF_DATA").map(|e| at + e).unwrap_or(rest.len());
+            out.push_str(&rest[..at]);
+            let body = &rest[at..end];
+            let mut i = 0;
+            let b = body.as_bytes();
+            while i < b.len() {
+                if b[i] == b'"' {
+                    if let Some(close) = body[i + 1..].find('"') {
+                        let inner = &body[i + 1..i + 1 + close];
+                        let ident_like = !inner.is_empty()
+                            && inner.chars().next().is_some_and(|c| c.is_ascii_alphabetic() || c == '_')
+                            && inner.chars().all(|c| c.is_ascii_alphanumeric() || c == '_');
+                        let next_is_quote = body[i + 2 + close..].starts_with('"');
+                        if ident_like && !next_is_quote && rng.chance(1, 2) {
+                            out.push_str(inner);
+                            stripped += 1;
+                        } else {
+                            out.push_str(&body[i..i + 2 + close]);
+                        }
+                        i += close + 2;
+                        continue;
+                    }
+                }
+                let ch_len = body[i..].chars().next().map(char::len_utf8).unwrap_or(1);
+                out.push_str(&body[i..i + ch_len]);
+                i += ch_len;
+            }
+            rest = &rest[end..];
+        }
+        out.push_str(rest);
+        text = out;
+    }
+    rec.nontrivial(text.as_bytes());
+    rec.bump("input.interpreted_if_data");
+    if stripped > 0 {
+        rec.bump("input.interpreted_if_data.with_bare_word_for_string");
+    }
+    relation(rec, &text, true, "G-a2ml document");
+}
+
 fn text_has_ifdata(text: &str) -> bool {
     text.contains("IF_DATA") || text.contains("A2ML")
 }
@@ -608,6 +660,10 @@ pub fn run(args: &Args, rec: &mut Recorder) {
         }
         if case % 40 == 33 {
             stray_tokens_in_include_case(rng, rec, &scratch, case);
+            return None;
+        }
+        if case % 40 == 23 || case % 40 == 3 {
+            interpreted_ifdata_case(rng, rec);
             return None;
         }
         let variant = case % 10;
@@ -855,6 +911,7 @@ pub fn run(args: &Args, rec: &mut Recorder) {
         rec.floor(k, 3);
     }
     rec.floor("outcome.strict=Ok.nonstrict=Ok", 10);
+    rec.floor("input.interpreted_if_data.with_bare_word_for_string", 5);
     rec.floor("docs_with_comment_in_front_of_faulty_token", 5);
     rec.floor("outcome.strict=Err.nonstrict=Ok+log", 10);
     rec.floor("outcome.strict=Err.nonstrict=Err", 10);
